@@ -133,6 +133,10 @@ RBDL_DLLAPI void NonlinearEffects (
       model.a[i] = model.X_lambda[i].apply(model.a[model.lambda[i]]) + model.c[i];
     }
 
+    if (f_ext != NULL) {
+      model.X_base[i] = model.X_lambda[i] * model.X_base[model.lambda[i]];
+    }
+
     if (!model.mBodies[i].mIsVirtual) {
       model.f[i] = model.I[i] * model.a[i] + crossf(model.v[i],model.I[i] * model.v[i]);
 #ifdef RBDL_USE_CASADI_MATH
